@@ -62,17 +62,32 @@ def drop_prefixes(scripts):
     return out
 
 
+def cap(ctx, scripts, n, what):
+    """keep at most n scripts (seeded sample, order preserved); the evidence records what was dropped"""
+    if len(scripts) <= n:
+        return scripts
+    keep = set(ctx.rng.sample(range(len(scripts)), n))
+    ctx.cov.setdefault("sampled", []).append({"what": what, "generated": len(scripts), "replayed": n})
+    ctx.log("%s: %d scripts generated, seeded sample of %d replayed" % (what, len(scripts), n))
+    return [s for i, s in enumerate(scripts) if i in keep]
+
+
 def corrupt(ev, rng):
-    """append a node id that is not in the answer to one search answer (or drop its last element)"""
-    if ev.get("ev") != "Searches" or not ev.get("s"):
+    """drop the last element of one search answer (or invent one); for a mutator event: invent a node / a label"""
+    if ev.get("ev") == "Searches":
+        oks = [a for a in ev.get("s", []) if a.get("ok")]
+        if not oks:
+            return False
+        a = oks[rng.randrange(len(oks))]
+        a["res"] = a["res"][:-1] if a["res"] else [987654]
+        return True
+    nodes = (ev.get("obs") or {}).get("nodes")
+    if nodes is None:
         return False
-    a = ev["s"][rng.randrange(len(ev["s"]))]
-    if not a.get("ok"):
-        return False
-    if a["res"]:
-        a["res"] = a["res"][:-1]
+    if nodes:
+        nodes[0][1] = sorted(nodes[0][1] + ["Zz"])
     else:
-        a["res"] = [987654]
+        nodes.append([987654, [], {}])
     return True
 
 
@@ -87,18 +102,19 @@ def run(ctx):
                     "selftest-" + inv, expect_violation=True, workers=2)
     # design checks + transition cover of the (logical + physical) state graph
     scripts = ctx.tlc_gen("MC_VectorIdx", GEN.format(maxh=3 if q else 4, metrics=ALLM, view="VIEW View", emit="ACTION_CONSTRAINT Emit",
-                                                     inv="Satisfiable DirectWording", **small), "cover2", workers=W, timeout=3000)
+                                                     inv="Satisfiable DirectWording CurMatchesGraph", **small), "cover2", workers=W, timeout=3000)
     if not q:
-        scripts += ctx.tlc_gen("MC_VectorIdx", GEN.format(maxh=3, metrics=ALLM, view="VIEW View", emit="ACTION_CONSTRAINT Emit",
-                                                          inv="Satisfiable DirectWording",
+        scripts += ctx.tlc_gen("MC_VectorIdx", GEN.format(maxh=2, metrics=ALLM, view="VIEW View", emit="ACTION_CONSTRAINT Emit",
+                                                          inv="Satisfiable DirectWording CurMatchesGraph",
                                                           **dict(ids="{1,2,3}", ls="LS4", vecs="V8", qs="Q3", keys="KeysABe", ks="{1,2,3}")),
                                "cover3", workers=W, timeout=3000)
     # long random walks of the model (3 nodes, 6-8 vectors)
     scripts += ctx.tlc_gen("MC_VectorIdx", GEN.format(maxh=10 if q else 14, metrics=ALLM, view="", emit="", inv="SimEmit",
                                                       **dict(ids="{1,2,3}", ls="LS4", vecs="V6" if q else "V8", qs="Q3", keys="KeysABe", ks="{1,2,3}")),
-                           "walks", simulate=(150 if q else 2500, 16), workers=4)
+                           "walks", simulate=(150 if q else 1500, 16), workers=4)
     scripts = drop_prefixes(scripts)
     ctx.cov["scripts_after_prefix_removal"] = len(scripts)
+    scripts = cap(ctx, scripts, 9000 if q else 36000, "vector histories")
     ctx.assume("2-D integer vectors with |coordinate| <= 3, no zero vector (cosine distance undefined); ties in exact arithmetic may be "
                "returned in any order (the implementation ranks in f32)",
                "every vector has the index's dimension; searches are issued only on declared indexes; k in {1,2,3}",
@@ -108,14 +124,19 @@ def run(ctx):
                "(EXACT_SEARCH_MAX counts stored vectors); above that only: live holders, no more copies than entries, sorted, <= k")
     allw = [WITNESS[k] for k in ("append-only", "deleted", "metric")]
     sp = ctx.write_scripts("vecidx", allw + scripts)
-    tr = ctx.run_harness("vecidx", sp, args=["via=store,cypher", "qs=1:0,1:1,-1:2", "ks=1,2,3"], timeout=3000)
+    tr = ctx.run_harness("vecidx", sp, args=["via=store", "qs=1:0,1:1,-1:2", "ks=1,2,3"], timeout=3000)
     ctx.validate("VectorIdx_Trace", TRACE, tr, corrupt=corrupt, timeout=3000)
+    # the same histories with every operation issued as a Cypher statement (quick: the witnesses + every third history)
+    sp = ctx.write_scripts("vecidx-cy", allw + (scripts[::3] if q else scripts), prefix="cy")
+    tr = ctx.run_harness("vecidx", sp, name="vecidx-cy", args=["via=cypher", "qs=1:0,1:1,-1:2", "ks=1,2,3"], timeout=3000)
+    ctx.validate("VectorIdx_Trace", TRACE, tr, name="VectorIdx_Trace-cypher", corrupt=corrupt, timeout=3000)
     # impl -> spec: seeded random histories generated by the harness (more nodes, longer), store API and Cypher
-    n, steps = (12, 60) if q else (150, 120)
-    rnd = [{"sid": "rnd-%d" % i, "random": {"seed": ctx.seed * 7919 + i, "steps": steps, "nodes": 4 + i % 4}} for i in range(n)]
+    n, steps = (12, 50) if q else (80, 90)
+    rnd = [{"sid": "rnd-%d" % i, "random": {"seed": ctx.seed * 7919 + i, "steps": steps, "nodes": 4 + i % 4, "ks": [1, 3] if i % 2 else [2, 4]}}
+           for i in range(n)]
     if not q:
         # indexes beyond the exact-search threshold (HNSW): only the soundness clauses are claimed there
         rnd += [{"sid": "big-%d" % i, "random": {"seed": ctx.seed * 104729 + i, "steps": 420, "nodes": 200, "ks": [5], "search_every": 12}} for i in range(3)]
     sp = ctx.write_scripts("vecidx-random", rnd, wrap=False)
-    tr = ctx.run_harness("vecidx", sp, name="vecidx-random", args=["via=store,cypher", "qs=1:0,1:1,-1:2,2:3", "ks=1,2,4"], timeout=3000)
+    tr = ctx.run_harness("vecidx", sp, name="vecidx-random", args=["via=store,cypher", "qs=1:0,-1:2,2:3", "ks=1,2,4"], timeout=3000)
     ctx.validate("VectorIdx_Trace", TRACE, tr, name="VectorIdx_Trace-random", corrupt=corrupt, timeout=3000)
